@@ -1,6 +1,9 @@
 use crate::report::{Ctx, Report, Spec};
+pub mod c06;
+pub mod c13;
 pub mod c16;
 pub mod c18;
+pub mod sanitize;
 pub mod selftest;
 pub mod wire;
 
@@ -8,6 +11,8 @@ pub fn dispatch(ctx: &Ctx) -> Option<(Spec, Report)> {
     Some(match ctx.id.as_str() {
         "C01" => wire::run(ctx, 1),
         "C02" => wire::run(ctx, 2),
+        "C06" => c06::run(ctx),
+        "C13" => c13::run(ctx),
         "C16" => c16::run(ctx),
         "C18" => c18::run(ctx),
         "SELFTEST" => selftest::run(ctx),
